@@ -813,6 +813,29 @@ func corruptBody(rng *rand.Rand, name string, rev int, st release.Status) (strin
 	return b64.EncodeToString(gz(j)), lvl
 }
 
+// bodyDecodable: does helm's record string decode (base64, optional gzip) to a JSON object?
+func bodyDecodable(body string) bool {
+	b, err := base64.StdEncoding.DecodeString(body)
+	if err != nil {
+		return false
+	}
+	if len(b) > 3 && b[0] == 0x1f && b[1] == 0x8b && b[2] == 0x08 {
+		zr, err := gzip.NewReader(bytes.NewReader(b))
+		if err != nil {
+			return false
+		}
+		if b, err = io.ReadAll(zr); err != nil {
+			return false
+		}
+	}
+	var v any
+	if json.Unmarshal(b, &v) != nil {
+		return false
+	}
+	_, isObj := v.(map[string]any)
+	return isObj
+}
+
 type corruptRecord struct {
 	Backend string `json:"backend"`
 	Name    string `json:"name"`
@@ -932,11 +955,12 @@ func runStorage(x *exec, rng *rand.Rand) {
 		l := action.NewList(cfg)
 		l.All, l.StateMask = true, action.ListAll
 		rs, err := l.Run()
-		if err == nil && !strings.HasPrefix(level, "L4") {
+		if err == nil && !bodyDecodable(rec.Release) {
 			// action.List shows the latest revision per name. When the corrupt record is undecodable
-			// (L0-L3) every name with a readable record must still appear. A decodable record with
-			// odd fields (L4) may legitimately be the latest revision of its name and be filtered by
-			// its status: don't-care.
+			// (judged by the harness' own base64/gzip/JSON decoding) every name with a readable
+			// record must still appear. A record that still decodes to a JSON object (L4, or a
+			// havoc that happened to keep the syntax intact) may legitimately be the latest
+			// revision of its name and be filtered by its status: don't-care.
 			names := map[string]bool{}
 			for _, r := range rs {
 				if r != nil {
